@@ -205,6 +205,11 @@ Proof. exact (norm_denorm K Kf Kc). Qed.
 Theorem C10_normalize_grid_is_coords :
   forall ac (n : Z) (p : K), (2 <= n)%Z -> gen_normalize_grid ac (of_Z n) p = ncoordK ac n p.
 Proof. exact (normalize_grid_is_coords K Kf Kc). Qed.
+
+(* 12. a.append(b) (traced): the appended batch is first converted from ITS axes to a's axes with its own grids, for all 16
+       axes pairs -- so the concatenated batch means the same world-space vectors item by item (by the C10_axes theorems) *)
+Theorem C10_append_converts_axes : forall A B : axes, gen_ff_append_converts A B = true.
+Proof. intros [] []; reflexivity. Qed.
 End Statements.
 
 Print Assumptions C10_axes_roundtrip.
@@ -227,6 +232,7 @@ Print Assumptions C10_sample_commutes_with_axes_2d.
 Print Assumptions C10_sample_commutes_with_axes_3d.
 Print Assumptions C10_transform_vectors_closed_forms.
 Print Assumptions C10_flowfields_glue_is_model.
+Print Assumptions C10_append_converts_axes.
 Print Assumptions C10_normalize_helpers_are_grid_maps.
 Print Assumptions C10_normalize_helpers_inverse.
 Print Assumptions C10_normalize_grid_is_coords.
